@@ -9,6 +9,7 @@ from . import mergerules as mr
 from . import mergetrace as mt
 from . import tr
 from . import buildrules
+from . import unitrules
 
 from .common import Guard  # noqa: E402
 
@@ -21,6 +22,7 @@ DECIDED = [
     'R4: leaf rule table: the newer value replaces the older unless the older has strictly higher priority.',
     'R6: every override of ayns.on_merge_impl is one of the implementations the rules decide; ConfigDict.ayns.on_merge_impl is a pure delegation to the container merge on every path.',
     'R5: lists replace wholesale by default (ConfigList._default_delete True, mappings False); a mapping merged onto a list validates every key strictly and raises MergeError before merging.',
+    'R3b: filter_nodes evaluated on a two-level tree for every verdict table (see C04.R9).',
 ]
 UNDECIDED = ['the algebraic law itself as data (equality with an independent fold);', 'leakage between stages through shared node objects.']
 
@@ -156,6 +158,7 @@ def check(repo, run, tier):
     g(buildrules.builder_pipeline, repo, run, 'C02.R1b')
     g(mr.key_loop_paths, repo, run, 'C02.R2')
     g(mr.removal_guards, repo, run, 'C02.R3')
+    g(unitrules.filter_nodes_table, repo, run, 'C02.R3b')
     g(mr.leaf_winner_table, repo, run, 'C02.R4')
     g(r5, repo, run)
     g.done()
